@@ -55,7 +55,7 @@ def same_status(impl, mod):
     return impl.startswith("internal") and mod.startswith("internal")
 
 
-def compare_trees(cr, m, rng, path=(), out=None, counters=None):
+def compare_trees(cr, m, rng, path=(), out=None, counters=None, constraints=True):
     """real CompiledRoutine vs decoded model tree -> list of difference descriptions"""
     out = [] if out is None else out
     if list(cr.children) != [c["name"] for c in m["children"]]:
@@ -93,7 +93,9 @@ def compare_trees(cr, m, rng, path=(), out=None, counters=None):
     # constraints: compare as multisets of semantically equal pairs (tautologies included: both keep them)
     ci = [(c.lhs, c.rhs) for c in cr.constraints]
     cm = list(m["constraints"])
-    if len(ci) != len(cm):
+    if not constraints:
+        pass
+    elif len(ci) != len(cm):
         out.append((path, "number of constraints", [(str(a), str(b)) for a, b in ci], [(E.to_str(a), E.to_str(b)) for a, b, _ in cm]))
     else:
         for (a, b), (ma, mb, _) in zip(ci, cm):
@@ -110,7 +112,7 @@ def compare_trees(cr, m, rng, path=(), out=None, counters=None):
         if cr.repetition.sequence.type != m["repetition"]["sequence"]["type"]:
             out.append((path, "sequence type", cr.repetition.sequence.type, m["repetition"]["sequence"]["type"]))
     for (cn, cc), mc in zip(cr.children.items(), m["children"]):
-        compare_trees(cc, mc, rng, path + (cn,), out, counters)
+        compare_trees(cc, mc, rng, path + (cn,), out, counters, constraints)
     return out
 
 
